@@ -86,6 +86,9 @@ def c_kind(k) -> str:
         return f"({t} {c_expr(k[1])})"
     if t == "HSwapCallee":
         return f"(HSwapCallee {c_expr(k[1])} {cstr(k[2])})"
+    if t == "HSendFile":
+        return "(HSendFile %s %s %s %s)" % (k[1], c_expr(k[2]), c_expr(k[3]),
+                                            clist([core.copt(cstr(x) if x is not None else None, "str") for x in k[4]], "option str"))
     if t in ("HTzNow", "HTzFromTs"):
         return f"({t} {c_expr(k[1])} {c_expr(k[2])})"
     raise ValueError(t)
@@ -224,6 +227,44 @@ def gen_gargs(rng, depth, consts, must_kw, sub=None, max_n=6, forbid_kw=(), allo
     return res2
 
 
+SEND_FILE_PATH = "f'files/{name}'"
+
+
+def _garg(kw=None, star=0, value=("n", "x"), eq="="):
+    return dict(kw=kw, star=star, eq=eq if kw is not None else "", value=value, comma=", ")
+
+
+def star_family(head, must):
+    """Argument lists with `*rest` / `**kw` in every position class relative to the arguments a codemod touches
+    (`head`: leading positionals, `must`: the keyword arguments of the trigger): before / between / after, one and two `**`
+    spreads, both kinds, a spread as the only argument, and the plain list.  Each is a list of generator args."""
+    H = [_garg(value=v) for v in head]
+    M = [_garg(kw=k, value=v) for k, v in must]
+    S = lambda: _garg(star=1, value=("n", "rest"))            # noqa: E731
+    D = lambda n="kw": _garg(star=2, value=("n", n))          # noqa: E731
+    X = lambda: _garg(kw="zeta", value=("c", "1"))            # noqa: E731
+    between = (M[:1] + [D()] + M[1:] + [X()]) if len(M) >= 2 else ([X(), D()] + M)
+    shapes = [
+        ("star-before", H + [S()] + M),
+        ("dstar-before", H + [D()] + M),
+        ("dstar-between", H + between),
+        ("dstar-after", H + M + [D()]),
+        ("star-after-keywords", H + M + [S()]),
+        ("two-dstar", H + [D()] + M + [D("kw2")]),
+        ("star-and-dstar", H + [S()] + M + [D()]),
+        ("dstar-only", [D()]),
+        ("star-only", [S()]),
+        ("plain", H + M),
+    ]
+    out = []
+    for name, args in shapes:
+        args = [dict(a) for a in args]
+        for i, a in enumerate(args):
+            a["comma"] = ", " if i < len(args) - 1 else ""
+        out.append((name, args))
+    return out
+
+
 class Printer:
     def __init__(self):
         self.buf, self.off, self.calls = [], 0, []
@@ -337,7 +378,9 @@ def transformer_classes():
     from core_codemods.secure_flask_cookie import SecureFlaskCookie
     from core_codemods.secure_random import SecureRandomTransformer
     from core_codemods.upgrade_sslcontext_tls import UpgradeSSLContextTLS
+    from core_codemods.replace_flask_send_file import ReplaceFlaskSendFile
     return {
+        "replace-flask-send-file": ReplaceFlaskSendFile,
         "requests-verify": RequestsVerify, "harden-ruamel": HardenRuamel,
         "enable-jinja2-autoescape": EnableJinja2AutoescapeTransformer,
         "safe-lxml-parser-defaults": LxmlSafeParserDefaults, "safe-lxml-parsing": LxmlSafeParsing,
@@ -352,7 +395,11 @@ def transformer_classes():
 PYYAML_VARIANT = ["PyyamlByIndex"]   # set from Generated/Tables (pyyaml_shape) at the start of run()
 
 
+ctx_tables_cache = [None]
+
+
 def table_rows(ctx):
+    ctx_tables_cache[0] = ctx.tables or {}
     PYYAML_VARIANT[0] = (ctx.tables or {}).get("pyyaml_shape", "PyyamlByParameter")
     return {name: [tuple(e) for e in entries] for name, entries in (ctx.tables or {}).get("newargs", [])}
 
@@ -366,6 +413,11 @@ def kind_for(codemod, rows, tags=None, ast_mode=False):
     if codemod in ("requests-verify", "harden-ruamel", "enable-jinja2-autoescape", "safe-lxml-parser-defaults",
                    "safe-lxml-parsing", "subprocess-shell-false", "fix-math-isclose", "jwt-decode-verify"):
         return ("HReplace", info(codemod))
+    if codemod == "replace-flask-send-file":
+        t = (ctx_tables_cache[0] or {})
+        path = ast.unparse(ast.parse(SEND_FILE_PATH, mode="eval").body) if ast_mode else SEND_FILE_PATH
+        return ("HSendFile", t.get("p2k_shape", "P2kCarriesOver"), ("a", ("c", f"(p := Path({path}))"), "parent"), ("a", ("n", "p"), "name"),
+                t.get("send_file_pos_map", []))
     if codemod == "secure-flask-cookie":
         return ("HCookie",)
     if codemod == "upgrade-sslcontext-tls":
@@ -580,6 +632,11 @@ def gen_trigger_tree(rng, codemod, depth, nest_p):
         callee = ("a", ("n", "subprocess"), rng.choice(["run", "Popen", "call"]))
     elif codemod == "limit-readline":
         return ("call", True, ("a", ("n", "fh"), "readline"), [], False)
+    elif codemod == "replace-flask-send-file":
+        callee, max_n = ("a", ("n", "flask"), "send_file"), 5
+        args = gen_gargs(rng, 0, CONSTS_CST, must, None, max_n=max_n)
+        head = dict(kw=None, star=0, eq="", value=("c", SEND_FILE_PATH), comma=", " if args else "")
+        return ("call", True, callee, [head] + args, False)
     elif codemod == "add-requests-timeouts":
         callee, forbid = ("a", ("n", "requests"), "get"), ("timeout",)
     elif codemod == "django-json-response-type":
@@ -603,6 +660,20 @@ def gen_trigger_tree(rng, codemod, depth, nest_p):
     if codemod == "upgrade-sslcontext-tls" and len(args) == 1 and args[0]["star"] != 0:
         args = []   # SSLContext(*a) / SSLContext(**k) is never reported by the detector; the kernel would drop the argument there
     return ("call", True, callee, args, rng.random() < 0.1)
+
+
+def sendfile_marks(e, path_text):
+    """replace-flask-send-file selects by itself: a flask.send_file call whose first argument is the (string-typed) path"""
+    def go(x):
+        if x[0] == "a":
+            return ("a", go(x[1]), x[2])
+        if x[0] == "call":
+            callee = erase(x[2])
+            sel = callee in (("a", ("n", "flask"), "send_file"), ("n", "send_file")) and bool(x[3]) and x[3][0][0] is None \
+                and x[3][0][1] == 0 and x[3][0][4] == ("c", path_text)
+            return ("call", sel, go(x[2]), [(a[0], a[1], a[2], a[3], go(a[4])) for a in x[3]])
+        return x
+    return go(e)
 
 
 def classify_tree(codemod, e, as_written=False, nested_ok=False):
@@ -647,19 +718,45 @@ def kernel_transformers(ctx, per_codemod):
             p.w("\n")
             src = p.text()
             work.append((cm, src, {offset_to_pos(src, off) for off, mk in p.calls if mk}, lambda e, name, g=g: apply_marks(e, g)))
+    # the star family: `*rest` / `**kw` in every position class, for every transformer
+    for cm in classes:
+        sample = gen_trigger_tree(rng, cm, 0, 0.0)
+        head = [a["value"] for a in sample[3] if a["kw"] is None and a["star"] == 0][:2]
+        must = [(a["kw"], a["value"]) for a in sample[3] if a["kw"] is not None][:3]
+        for shape_name, fargs in star_family(head, must):
+            g = ("call", True, sample[2], fargs, False)
+            p = Printer()
+            p.w("import random\nr0 = ")
+            p.emit(g)
+            p.w("\n")
+            src = p.text()
+            work.append((cm, src, {offset_to_pos(src, off) for off, mk in p.calls if mk}, lambda e, name, g=g: apply_marks(e, g)))
+            ctx.count(f"kernel.transformer.star_family:{shape_name}")
+    ocases, ometa = [], []
     for cm, src, selected, marks in work:
         kind = kind_for(cm, rows, tags)
+        if cm == "replace-flask-send-file":
+            # this transformer decides by itself (callee flask.send_file and a string-typed path): every generated call is a site
+            selected = set(selected)
         try:
             out, fc = run_transformer(classes[cm], src, selected)
-        except Exception as ex:  # the model (rw) never raises for these transformers: a raise is a model/implementation mismatch
+        except Exception as ex:
+            # the file would be reported as failed and left untouched: allowed by the property, but the model must predict the raise
             ctx.count(f"kernel.transformer_raised:{cm}:{type(ex).__name__}")
-            ctx.mismatch(f"{cm} transformer vs Model.Args.rw", f"transformer raised {type(ex).__name__}: {ex} on {src!r} (the model rewrites it)",
-                         {"op": "transformer", "codemod": cm, "source": src, "selected": sorted(selected)})
+            for name, node in stmt_values_cst(cst.parse_module(src)).items():
+                e = marks(cst_conv(node, tags), name)
+                if cm == "replace-flask-send-file":
+                    e = sendfile_marks(e, SEND_FILE_PATH)
+                ocases.append("(%s, %s, %s)" % (c_kind(kind), c_expr(e), core.copt(None, "expr")))
+                ometa.append({"codemod": cm, "source": src, "selected": sorted(selected), "raised": f"{type(ex).__name__}: {ex}"})
+                ctx.case({"codemod": cm, "source": src, "raised": True}, nontrivial_key=("kt-raise", cm, src))
             continue
         before, after = stmt_values_cst(cst.parse_module(src)), stmt_values_cst(out)
         nchanges = len(fc.codemod_changes)
         for name, node in before.items():
             e = marks(cst_conv(node, tags), name)
+            if cm == "replace-flask-send-file":
+                e = sendfile_marks(e, SEND_FILE_PATH)
             obs = cst_conv(after[name], tags)
             cases.append("(%s, %s, %s)" % (c_kind(kind), c_expr(e), c_expr(obs)))
             meta.append({"codemod": cm, "source": src, "selected": sorted(selected), "tree": e, "reported_changes": nchanges})
@@ -667,6 +764,12 @@ def kernel_transformers(ctx, per_codemod):
             ctx.case({"codemod": cm, "source": src}, nontrivial_key=("kt", cm, src, name) if nt else None, sample=nested_selected(e))
             ctx.count(f"kernel.transformer:{cm}")
             ctx.count("kernel.transformer.nested_selected:" + str(nested_selected(e)))
+    if ocases:
+        obad = core.eval_bad_indices(ctx, "c16_kto", IMPORTS, "otree_case", ocases, ["otree_model_ok"])
+        for i in obad["otree_model_ok"]:
+            m = ometa[i]
+            ctx.mismatch(f"{m['codemod']} transformer vs Model.Args.rw", f"transformer raised {m['raised']} on {m['source']!r}; the model rewrites it",
+                         {"op": "transformer", "codemod": m["codemod"], "source": m["source"], "selected": m["selected"]})
     bad = core.eval_bad_indices(ctx, "c16_kt", IMPORTS, "tree_case", cases,
                                 ["tree_model_ok", "tree_spec_ok", "tree_delta_ok", "as_written_ok", "nested_class_ok"])
     not_aw, not_nested = set(bad["as_written_ok"]), set(bad["nested_class_ok"])
@@ -678,6 +781,9 @@ def kernel_transformers(ctx, per_codemod):
     for i in sorted(set(bad["tree_spec_ok"]) | set(bad["tree_delta_ok"])):
         m = meta[i]
         cls = classify_tree(m["codemod"], m["tree"], i not in not_aw, i not in not_nested)
+        if m["codemod"] == "upgrade-sslcontext-tls" and cls.startswith("kf_none") and i not in not_aw and len(m["tree"][3]) == 1 \
+                and m["tree"][3][0][1] != 0:
+            continue   # SSLContext(*a) / SSLContext(**k) is never reported by the detector; kernel-only deviation (C16_ssl_frame_partial, star s)
         if m["codemod"] == "limit-readline" and cls.startswith("kf_none") and i not in not_aw:
             continue   # readline(n) is never reported by the detector (pattern `$SINK.readline()`); kernel-only deviation, see C16_limit_readline_overwrites
         if (cls, m["codemod"]) in seen:
@@ -886,6 +992,11 @@ E2E = {
         variants=[("import jwt\n", "jwt.decode"), ("import jwt as pyjwt\n", "pyjwt.decode"), ("from jwt import decode\n", "decode")],
         must=lambda r: _jwt_must(r, True), forbid=("verify", "options"), nontrigger_must=lambda r: _jwt_must(r, False),
         nest_attr="x", imports_added=[], semgrep=True, first_two=lambda r: [("n", "token"), ("n", "key")]),
+    "replace-flask-send-file": dict(
+        variants=[("import flask\n", "flask.send_file"), ("from flask import send_file\n", "send_file")],
+        must=lambda r: [], forbid=(), nontrigger_must=None, nest_attr="x",
+        imports_added=["import flask", "from pathlib import Path"], imports_removed=["from flask import send_file"], semgrep=False,
+        first_pos=lambda r: ("c", SEND_FILE_PATH), one_stmt_family=True),
     "subprocess-shell-false": dict(
         variants=[("import subprocess\n", "subprocess.run"), ("import subprocess as sp\n", "sp.check_output"), ("from subprocess import Popen\n", "Popen")],
         must=lambda r: [("shell", ("n", "True"))], forbid=(), nontrigger_must=lambda r: [("shell", ("n", "False"))], nest_attr="args",
@@ -925,6 +1036,8 @@ SWAP = {  # callee swaps of the ImportedCallModifier codemods: spelled callee ->
 
 
 def e2e_kind(codemod, rows, callee):
+    if codemod == "replace-flask-send-file":
+        return kind_for(codemod, rows, ast_mode=True)
     if codemod in SWAP:
         t, n = SWAP[codemod][callee]
         return ("HSwapCallee", ast_value(t), n)
@@ -968,8 +1081,39 @@ def gen_e2e_call(rng, codemod, spec, callee, trigger, depth, nest_p):
     return ("call", bool(trigger), g_name(callee), args, False)
 
 
-def gen_e2e_file(rng, codemod, spec):
+def e2e_family_parts(rng, codemod, spec):
+    """(head positionals, trigger keywords) of a codemod's trigger call, for star_family"""
+    if codemod == "harden-pyyaml":
+        return [("n", "data")], [("Loader", g_name("yaml.Loader"))]
+    head = []
+    if spec.get("first_pos"):
+        head = [spec["first_pos"](rng)]
+    elif spec.get("first_two"):
+        head = spec["first_two"](rng)
+    elif spec.get("min_pos"):
+        head = [("n", "src")]
+    return head, spec["must"](rng)
+
+
+def gen_e2e_file(rng, codemod, spec, family=None):
     header, callee = rng.choice(spec["variants"])
+    if family is not None:
+        # one statement per position class of `*rest` / `**kw` around the arguments the codemod touches
+        p = Printer()
+        p.w(header)
+        p.w("import os\n\n")
+        stmts = []
+        head, must = e2e_family_parts(rng, codemod, spec)
+        shapes = star_family(head, must)
+        pick = shapes[family::2] if not spec.get("one_stmt_family") else shapes[family:family + 1]
+        for i, (shape_name, fargs) in enumerate(pick):
+            g = ("call", True, g_name(callee), fargs, False)
+            p.w(f"v{i} = ")
+            p.emit(g)
+            p.w("\n")
+            stmts.append((f"v{i}", g))
+        p.w("print(os.getcwd())\n")
+        return header, callee, p.text(), stmts, p.calls
     p = Printer()
     p.w(header)
     p.w("import os\n\n")
@@ -1012,8 +1156,13 @@ def e2e_project(ctx, codemod, spec, nfiles, tag):
     root = ctx.scratch / f"e2e-{codemod}-{tag}"
     files = {}
     metas = {}
-    for i in range(nfiles):
-        header, callee, text, stmts, calls = gen_e2e_file(rng, codemod, spec)
+    nfam = 10 if spec.get("one_stmt_family") else 2     # a raising statement fails its whole file: one family shape per file there
+    for i in range(max(nfiles, nfam + 4)):
+        if spec.get("one_stmt_family") and i >= nfam:
+            spec = dict(spec, allow_star=(i % 2 == 0))      # half of the ordinary files without any starred argument
+        header, callee, text, stmts, calls = gen_e2e_file(rng, codemod, spec, family=i if i < nfam else None)
+        if i < nfam:
+            ctx.count(f"e2e.star_family_files:{codemod}")
         files[f"m{i}.py"] = text
         metas[f"m{i}.py"] = (header, callee, text, stmts, calls)
     for c in load_corpus():
@@ -1047,7 +1196,7 @@ def e2e(ctx, codemods, nfiles, tag="a"):
     ctx.notes.append("e2e CLI wall times: " + ", ".join(f"{c} {w}s" for c, w in walls))
 
     from harness import c16_jwt
-    cases, meta, jcases, jmeta = [], [], [], []
+    cases, meta, jcases, jmeta, ocases, ometa = [], [], [], [], [], []
     for (cm, root, files, metas), (_, r, rep) in zip(projects, results):
         if r["rc"] != 0 or rep is None:
             ctx.mismatch(f"CLI run of {cm}", f"exit status {r['rc']}: {r['stderr'][-400:]}", {"op": "e2e", "codemod": cm, "project": core.b64tree(files)})
@@ -1062,12 +1211,6 @@ def e2e(ctx, codemods, nfiles, tag="a"):
             after = (root / rel).read_text()
             m = metas[rel]
             ctx.count(f"e2e.files:{cm}")
-            if rel in failed and cm != "jwt-decode-verify":
-                # the tool could not transform the file (an exception in the transformer): the model predicts no raise here
-                ctx.count(f"e2e.failed_file:{cm}")
-                ctx.mismatch(f"{cm} end to end vs Model.Args.rw", f"{rel} is listed under failedFiles (the transformer raised); the model rewrites it",
-                             {"op": "e2e", "codemod": cm, "project": core.b64tree({rel: before}), "after": after})
-                continue
             if isinstance(m, tuple) and m[0] == "corpus":
                 c = m[1]
                 stmts = [(st.targets[0].id, ast_conv(st.value, c["selected"])) for st in ast.parse(before).body
@@ -1080,7 +1223,25 @@ def e2e(ctx, codemods, nfiles, tag="a"):
                 _, bvals, _ = split_module(before)
                 stmts = [(name, apply_marks(ast_conv(bvals[name]), g)) for name, g in gstmts]
                 pred_lines = sorted(offset_to_pos(text, off)[0] for off, mk in calls if mk)
+            if cm == "replace-flask-send-file":
+                stmts = [(name, sendfile_marks(e, ast.unparse(ast.parse(SEND_FILE_PATH, mode="eval").body))) for name, e in stmts]
+                bn = {st.targets[0].id: st.value for st in ast.parse(before).body
+                      if isinstance(st, ast.Assign) and isinstance(st.targets[0], ast.Name)}
+                pred_lines = sorted(ln for name, e in stmts for c, (ln, _) in zip(calls_of(e), ast_call_positions(bn[name])) if c[1])
             got_lines = changes.get(rel, [])
+            if rel in failed:
+                # the transformer raised: the file is reported as failed.  The property allows that ("untouched"), but the file must be
+                # byte-identical, and the model must predict the raise (otherwise the tie is broken)
+                ctx.count(f"e2e.failed_file:{cm}")
+                if after != before:
+                    ctx.violation(f"kf_none:{cm}:failed_file_modified", f"{cm}: {rel} is reported as failed but was modified",
+                                  {"op": "e2e", "codemod": cm, "project": core.b64tree({rel: before}), "after": after})
+                if cm != "jwt-decode-verify":
+                    ftree = ("call", False, ("n", "__file__"), [(None, 0, 0, 0, e) for _, e in stmts])
+                    ocases.append("(%s, %s, %s)" % (c_kind(e2e_kind(cm, rows, callee)), c_expr(ftree), core.copt(None, "expr")))
+                    ometa.append({"codemod": cm, "file": rel, "before": before, "after": after})
+                    ctx.case({"codemod": cm, "file": rel, "failed": True}, nontrivial_key=("e2e-failed", cm, before))
+                    continue
             if cm == "jwt-decode-verify" and rel in failed and not c16_jwt.file_raises(stmts):
                 ctx.mismatch("jwt-decode-verify end to end vs Model.JwtOpts", f"{rel} is listed under failedFiles but no selected call has a `**spread` options entry",
                              {"op": "e2e", "codemod": cm, "project": core.b64tree({rel: before}), "after": after})
@@ -1157,6 +1318,12 @@ def e2e(ctx, codemods, nfiles, tag="a"):
         if not any(k.startswith(f"e2e.calls:{cm}:selected") for k in ctx.dist) and not ctx.dist.get("e2e.jwt.raised_file_untouched" if cm == "jwt-decode-verify" else "-"):
             ctx.mismatch(f"{cm} end to end: coverage", f"no selected call of {cm} was judged in this run (detector stopped matching the generated triggers, "
                          f"or every file was skipped)", {"op": "e2e-coverage", "codemod": cm})
+    if ocases:
+        obad = core.eval_bad_indices(ctx, "c16_e2eo", IMPORTS, "otree_case", ocases, ["otree_model_ok"])
+        for i in obad["otree_model_ok"]:
+            m = ometa[i]
+            ctx.mismatch(f"{m['codemod']} end to end vs Model.Args.rw", f"{m['file']} is listed under failedFiles (the transformer raised); the model rewrites it",
+                         {"op": "e2e", "codemod": m["codemod"], "project": core.b64tree({m["file"]: m["before"]}), "after": m["after"]})
     if jcases:
         jbad = core.eval_bad_indices(ctx, "c16_e2ej", IMPORTS, "jwt_case", jcases, ["jwt_ast_model_ok", "jwt_spec_ok"])
         for i in jbad["jwt_ast_model_ok"]:
